@@ -445,6 +445,24 @@ def _converters(ctx: Ctx):
         ctx.fail("assign_attr_from_defs:additional", asg.loc(),
                  "undeclared AVPs are not kept in additional_avps/_additional_avps",
                  rule="C03-R9")
+    # the list that receives undeclared AVPs is selected by presence, not by truthiness
+    ctx.inst("assign_attr_from_defs:additional-selected-by-presence", rule="C03-R9")
+    for n in ast.walk(asg.node):
+        if isinstance(n, ast.Call) and isinstance(n.func, ast.Attribute) and n.func.attr == "append":
+            recv = n.func.value
+            resolved = recv
+            if isinstance(recv, ast.Name):
+                defs = [x for x in ast.walk(asg.node) if isinstance(x, ast.Assign)
+                        and any(isinstance(t, ast.Name) and t.id == recv.id for t in x.targets)]
+                if len(defs) == 1:
+                    resolved = defs[0].value
+            txt = ast.unparse(resolved)
+            if "additional_avps" in txt and isinstance(resolved, (ast.BoolOp, ast.IfExp)):
+                ctx.fail("assign_attr_from_defs:additional-selected-by-presence", asg.loc(n),
+                         f"the list that keeps undeclared AVPs is chosen with `{txt}`: a freshly "
+                         f"created container's empty additional_avps list is falsy, so the AVP is "
+                         f"stored elsewhere or dropped (undeclared AVPs inside grouped AVPs are lost)",
+                         rule="C03-R9")
     # DefinedMessage.avps getter
     dm = model.cls("message._base", "DefinedMessage")
     g = dm.methods.get("avps")
@@ -518,18 +536,59 @@ def _undefined_message(ctx: Ctx):
         ctx.fail("UndefinedMessage.__post_init__", pi.loc(),
                  "constructor does not assign attributes from self.avps", rule="C03-R10")
     ctx.inst("UndefinedMessage._assign_attr_values", rule="C03-R10")
-    s = ast.unparse(av.node)
-    fors = [n for n in ast.walk(av.node) if isinstance(n, ast.For)]
+    from ..cfg import cfg_of
+    from ..atoms import Atomizer, must_facts
+    g = cfg_of(av)
+    at = Atomizer(model, av.module, um)
+    params = [a_.arg for a_ in av.node.args.args]
+    parent_p, avps_p = params[1], params[2]
+    fors = [n for n in g.nodes if n.kind == "iter"]
     probs = []
-    if not (fors and ast.unparse(fors[0].iter) == "avps"):
+    if len(fors) != 1 or A.dotted(fors[0].ast.iter) != avps_p:
         probs.append("does not iterate the AVP list in order")
-    if "isinstance(avp, AvpGrouped)" not in s or "UndefinedGroupedAvp()" not in s:
-        probs.append("grouped AVPs are not turned into nested objects")
-    if "self._assign_attr_values(value, avp.value)" not in s:
-        probs.append("no recursion into the grouped AVP's children")
-    if ".append(value)" not in s or "isinstance(existing_attr, list)" not in s:
-        probs.append("a repeated AVP is not turned into a list by appending")
-    if "reversed(" in s or "insert(0" in s:
+    else:
+        v = ast.unparse(fors[0].ast.target)
+        grouped_fact = lambda fs, truth: any(
+            f_[0].replace(" ", "") == f"isinstance({v},AvpGrouped)" and f_[3] is truth for f_ in fs)
+        rec = [n for n in g.nodes if n.kind == "stmt" and any(
+            A.call_name(c) == f"self.{av.name}" for c in n.calls())]
+        if len(rec) != 1 or not grouped_fact(must_facts(g, at, rec[0]), True):
+            probs.append("no recursion into the children of grouped AVPs (only)")
+        else:
+            c = [c for c in rec[0].calls() if A.call_name(c) == f"self.{av.name}"][0]
+            tgt = A.dotted(c.args[0]) if c.args else None
+            d = [n for n in g.nodes if n.kind == "stmt" and isinstance(n.ast, ast.Assign)
+                 and any(A.dotted(t) == tgt for t in n.ast.targets)
+                 and isinstance(n.ast.value, ast.Call) and A.call_name(n.ast.value) == "UndefinedGroupedAvp"]
+            if not d or len(c.args) != 2 or ast.unparse(c.args[1]) != f"{v}.value":
+                probs.append("grouped AVPs are not turned into nested objects filled from their children")
+        plain = [n for n in g.nodes if n.kind == "stmt" and isinstance(n.ast, ast.Assign)
+                 and ast.unparse(n.ast.value) == f"{v}.value"]
+        if not plain or not grouped_fact(must_facts(g, at, plain[0]), False):
+            probs.append("the value of a non-grouped AVP is not taken from avp.value")
+        name_defs = [n for n in g.nodes if n.kind == "stmt" and isinstance(n.ast, ast.Assign)
+                     and isinstance(n.ast.value, ast.Call)
+                     and A.call_name(n.ast.value) == "self._produce_attr_name"]
+        nm = A.dotted(name_defs[0].ast.targets[0]) if name_defs else None
+        if nm is None or [A.dotted(x) for x in name_defs[0].ast.value.args] != [v]:
+            probs.append("the attribute name is not produced from the AVP")
+        else:
+            has = f"hasattr({parent_p},{nm})"
+            appends = [n for n in g.nodes if n.kind == "stmt" and any(
+                isinstance(c.func, ast.Attribute) and c.func.attr == "append" for c in n.calls())]
+            sets = [n for n in g.nodes if n.kind == "stmt" and any(
+                A.call_name(c) == "setattr" and len(c.args) == 3
+                and [A.dotted(x) for x in c.args[:2]] == [parent_p, nm] for c in n.calls())]
+            hf = lambda fs, truth: any(f_[0].replace(" ", "") == has and f_[3] is truth for f_ in fs)
+            if not appends or not all(hf(must_facts(g, at, n), True) for n in appends):
+                probs.append("a repeated AVP is not turned into a list by appending")
+            if not any(hf(must_facts(g, at, n), False) for n in sets):
+                probs.append("the first occurrence of an AVP is not stored as a plain attribute")
+            lists = [n for n in sets if hf(must_facts(g, at, n), True)]
+            if appends and not lists:
+                probs.append("an existing scalar attribute is not converted into a list before appending")
+    body = ast.unparse(av.node)
+    if "reversed(" in body or "insert(0" in body or "appendleft" in body:
         probs.append("wire order is not kept")
     ctx.inst("UndefinedMessage._assign_attr_values#order", rule="C03-R10")
     for p in probs:
